@@ -302,7 +302,9 @@ func runC08(rc *RunCtx) {
 			checkC08(rc, follow, o) // the same obligations as for the first call
 		}
 		if follow.Fault == FOversize && o.Err == nil {
-			rc.Violate("success_under_fault", base+"|flood_goes_on", "the call made while the flood was still going on reported success (%T)", o.Resp)
+			// same signature scheme as for a first call, so that what is accepted here falls under the same (known or unknown) defect
+			rc.Violate("success_under_fault", fmt.Sprintf("client=%s|fault=%s|resp=%T%s", sc.Kind, follow.Fault, o.Resp, acceptedFrameClass(follow, o.Consumed)),
+				"the call made while the flood was still going on reported success (%T); consumed %d bytes: %x", o.Resp, len(o.Consumed), trunc(o.Consumed, 40))
 		}
 	}
 }
@@ -418,16 +420,7 @@ func checkC08(rc *RunCtx, sc *C1, out *C1Outcome) {
 		return
 	}
 	if success {
-		related := ""
-		if len(out.Consumed) == 0 {
-			related = "|nothing_was_read"
-		} else if !frameAnswersRequest(sc, out.Consumed) {
-			// what was accepted does not even carry the request's transaction id / unit id / function code
-			related = "|frame_unrelated_to_request"
-		} else if sc.Kind == KTCP && len(out.Consumed) >= 6 && int(out.Consumed[4])<<8|int(out.Consumed[5]) != len(out.Consumed)-6 {
-			// the accepted frame contradicts its own MBAP length field
-			related = "|mbap_length_ignored"
-		}
+		related := acceptedFrameClass(sc, out.Consumed)
 		rc.Violate("success_under_fault", fmt.Sprintf("client=%s|fault=%s|resp=%T%s", sc.Kind, sc.Fault, out.Resp, related), "Do reported success (%T) to a request of fc %d although the transport %s; consumed %d bytes: %x", out.Resp, sc.Req.FC, sc.Fault, len(out.Consumed), trunc(out.Consumed, 40))
 		return
 	}
@@ -548,4 +541,19 @@ func indistinguishableReply(sc *C1, got []byte) bool {
 		return len(full) >= 9 && bytes.Equal(got[:9], full[:9])
 	}
 	return len(full) >= 3 && bytes.Equal(got[:3], full[:3]) && RTUConsistent(got)
+}
+
+// acceptedFrameClass classifies what a client accepted as a reply although the transport was faulty (signature suffix).
+func acceptedFrameClass(sc *C1, consumed []byte) string {
+	switch {
+	case len(consumed) == 0:
+		return "|nothing_was_read"
+	case !frameAnswersRequest(sc, consumed):
+		// what was accepted does not even carry the request's transaction id / unit id / function code
+		return "|frame_unrelated_to_request"
+	case sc.Kind == KTCP && len(consumed) >= 6 && int(consumed[4])<<8|int(consumed[5]) != len(consumed)-6:
+		// the accepted frame contradicts its own MBAP length field
+		return "|mbap_length_ignored"
+	}
+	return ""
 }
